@@ -1,6 +1,7 @@
 #!/bin/bash
 # try_seed.sh <patch> <property>... : apply a seeded change to /repo, run the quick checks, undo.
 patch=$1; shift
+if [ -n "$(git -C /repo status --porcelain)" ]; then echo "REFUSING: /repo has uncommitted changes (commit the contract files first)"; exit 2; fi
 cd /repo && git apply "$patch" || { echo "patch does not apply"; exit 2; }
 for p in "$@"; do
   (cd /verif && ./check $p quick 2>&1 | grep -v "^KNOWN-FINDING" | grep "VIOLATION\|^property\|UNDECIDED\|obligation\|replay:" | cut -c1-260)
